@@ -235,7 +235,7 @@ func genC17(t *rapid.T) c17Case {
 func init() { register("C17", checkC17) }
 
 func TestC17(t *testing.T) {
-	runProp(t, "C17", checkC17, nil, part[c17Case]{"urls", scale(15000, 150000), genC17})
+	runProp(t, "C17", checkC17, nil, part[c17Case]{"urls", scale(40000, 150000), genC17})
 }
 
 // FuzzC17 mutates well-formed URLs; inputs outside the contract are discarded
